@@ -266,9 +266,16 @@ impl Run {
         let next = AtomicU64::new(0);
         let chunk = (total / (self.opts.jobs as u64 * 64)).clamp(1, 4096);
         let jobs = self.opts.jobs.max(1).min(total.max(1) as usize);
+        // worker stacks: what std gives a spawned thread in an optimised build,
+        // more for the unoptimised / instrumented variants (DESIGN.md, C05)
+        let stack = match self.opts.variant.as_str() {
+            "dbg" => 8 << 20,
+            "asan" | "tsan" => 64 << 20,
+            _ => 2 << 20,
+        };
         std::thread::scope(|s| {
             for _ in 0..jobs {
-                s.spawn(|| {
+                let _ = std::thread::Builder::new().stack_size(stack).spawn_scoped(s, || {
                     let mut l = Local::default();
                     loop {
                         let lo = next.fetch_add(chunk, Ordering::Relaxed);
